@@ -11,6 +11,8 @@ Part B (schedules): the same requests in flight while blocks are undone - statel
 exploration (vf/explore.py) with the reads stalled / held across the reorganisation, <= 1
 (quick) / 2 (thorough) deviations.  An in-flight reply must be an error or correct for one of
 the chains the daemon had; after quiescence every proof must again verify (Part A's oracle).
+Part C (sliced undo jobs): header-proof requests served to completion at every storage / file
+operation of every backup_block job (the undo runs in a worker thread while the loop serves).
 '''
 import itertools
 
@@ -322,9 +324,141 @@ def case_schedule(case, res):
     res.distinct('scenarios', case['scenario'])
 
 
+# ---- part C: requests served while a block is being undone in the worker thread --------------
+
+SLICED_BASE = ['cb', 'fan', 'old', 'new', 'chain2', 'old', 'new', 'multi', 'old']
+
+
+def sliced_chains(depth):
+    base = reorgrun.sim_for(SLICED_BASE)
+    y = reorgrun.make_branch(SLICED_BASE, depth, ['replay'] + ['new'] * depth, b'Y', base)
+    return base.blocks, y.blocks
+
+
+def sliced_requests(variant, tip):
+    return {0: [(0, tip)], 1: [(tip - 1, tip - 1)], 2: [(0, tip), (tip, tip), (0, tip - 1)],
+            3: [(tip - 2, tip)]}[variant]
+
+
+def case_sliced(case, res):
+    '''The undo of a block runs in a worker thread while the event loop keeps serving clients.
+    The backup_block jobs are SLICED (vf/sliced.py: the job hands control back before each of its
+    storage / file operations) and header-proof requests are served to completion at slice point
+    k.  Returns False when k is beyond the last slice point.'''
+    from vf.sliced import SlicedRunner
+    base, y = sliced_chains(case['depth'])
+    tip0 = len(base) - 1
+    s, c = boot(base, immediate=True)
+    runner = None
+    failures = []
+    try:
+        for h, cp in case.get('warm', [(0, tip0)]):
+            c.call('blockchain.block.header', [h, cp])
+        runner = SlicedRunner(s)
+        s.daemon.add_known(y)
+        s.daemon.set_chain(y)
+        s.x_chains.append(y)
+        s.x_blocks = y
+        reqs = []
+        points = 0
+        injected = False
+        ticks = 0
+        guard = 0
+        name = lambda sj: getattr(sj.job.func, '__name__', '')
+        while True:
+            guard += 1
+            if guard > 200000:
+                raise common.Broken('sliced execution does not end')
+            if s.loop.step_ready():
+                continue
+            active = runner.active()
+            if active:
+                sj = active[0]
+                if name(sj) == 'backup_block':
+                    if points == case['k'] and not injected:
+                        injected = True
+                        for h, cp in sliced_requests(case['variant'], tip0):
+                            rid = c.request('blockchain.block.header', [h, cp])
+                            reqs.append((rid, h, cp))
+                        # serve them to completion while the undo job stays where it is
+                        while True:
+                            if s.loop.step_ready():
+                                continue
+                            others = [x for x in runner.active() if x is not sj]
+                            if not others:
+                                break
+                            runner.step(others[0])
+                        res.count('slice_points_with_requests')
+                        res.distinct('slice_ops', (sj.last_op or ('start',))[0])
+                        continue
+                    points += 1
+                runner.step(sj)
+                continue
+            if s.db.state.height == len(y) - 1 and bytes(s.db.state.tip) == y[-1].hash:
+                break
+            ticks += 1
+            if ticks > 12 or not s.loop.fire_polling_timer():
+                break
+        runner.shutdown()
+        runner = None
+        if not injected:
+            return False
+        dead = s.check_tasks()
+        if dead:
+            failures.append(('server-task-ended', dict(tasks=dead)))
+        elif s.db.state.height != len(y) - 1:
+            failures.append(('index-not-at-tip', dict(height=s.db.state.height)))
+        else:
+            s.settle()
+            for rid, h, cp in reqs:
+                r = c.reply(rid)
+                res.count('in_flight_replies_judged')
+                if r is None:
+                    failures.append(('request-never-answered', dict(h=h, cp=cp)))
+                elif 'error' in r:
+                    res.count('in_flight_refused')
+                elif not any(cp < len(ch) and check_header_proof(r, ch, h, cp) is None
+                             for ch in (base, y)):
+                    failures.append(('in-flight-proof-verifies-against-no-chain',
+                                     dict(h=h, cp=cp)))
+            # afterwards every header proof must verify against the chain the server is on
+            tip = len(y) - 1
+            for cp in range(1, tip + 1):        # cp_height 0 means "no proof" in the protocol
+                for h in range(cp + 1):
+                    r = c.call('blockchain.block.header', [h, cp])
+                    res.count('header_proofs_checked')
+                    why = check_header_proof(r, y, h, cp)
+                    if why:
+                        failures.append(('header-proof-after-undo', dict(h=h, cp=cp, why=why)))
+                        break
+                else:
+                    continue
+                break
+        res.count('sliced_executions')
+    finally:
+        if runner is not None:
+            runner.shutdown()
+        s.close()
+    for key, detail in failures[:1]:
+        res.violation(f'{key}:served-while-a-block-is-undone', dict(case),
+                      dict(detail, slice_point=case['k'], depth=case['depth'],
+                           requests=sliced_requests(case['variant'], tip0)))
+    return True
+
+
 def run_case(case, res):
     if 'history' in case:
         case_history(case, res)
+    elif 'sliced' in case:
+        if 'k' in case:
+            case_sliced(case, res)
+        else:
+            for k in range(0, 400):
+                if not case_sliced(dict(case, k=k), res):
+                    res.maxi('slice_points', k)
+                    break
+            else:
+                raise common.Broken('more than 400 slice points in the undo jobs')
     else:
         case_schedule(case, res)
 
@@ -336,6 +470,9 @@ def cases_for(tier):
         n = 5 if q else 16
         for i in range(n):
             cases.append(dict(scenario=scn, bound=1 if q else 2, shard=[i, n]))
+    for depth in (1, 2) if q else (1, 2, 3):
+        for variant in range(4):
+            cases.append(dict(sliced=True, depth=depth, variant=variant))
     return cases
 
 
@@ -346,7 +483,8 @@ def run(tier, seed, started):
     c = res.counters
     kinds = res.sets.get('deviation_kinds', set())
     if c.get('tx_proofs_checked', 0) < 1000 or c.get('header_proofs_checked', 0) < 100 or \
-            not {'stall', 'hold'} <= kinds or not c.get('in_flight_replies_judged'):
+            not {'stall', 'hold'} <= kinds or not c.get('in_flight_replies_judged') or \
+            c.get('sliced_executions', 0) < 50:
         common.vacuous(PROP, res, f'vacuous C11 run: {c} {kinds}')
     coverage = {
         'evaluations': c['tx_proofs_checked'] + c['header_proofs_checked'] + c['executions'],
@@ -360,11 +498,14 @@ def run(tier, seed, started):
         'in_flight_replies_judged': c['in_flight_replies_judged'],
         'in_flight_refused': c.get('in_flight_refused', 0),
         'schedule_executions': c['executions'],
+        'sliced_undo_executions': c.get('sliced_executions', 0),
+        'slice_points_per_reorg': c.get('max:slice_points'),
         'deviation_bound_completed': 1 if tier == 'quick' else 2,
         'deviation_kinds_used': sorted(kinds),
         'exhaustive': True,
     }
-    assumptions = ['choice points only where the loop\'s ready queue is empty; worker jobs atomic',
+    assumptions = ['parts A, B: choice points only where the loop\'s ready queue is empty, worker '
+                   'jobs atomic; part C: backup_block sliced at its storage / file operations',
                    'MerkleCache.truncate is called from the worker thread in reality; preemption '
                    'inside it is not modelled']
     return finish(PROP, tier, seed, 'exploration', res, coverage, assumptions, started)
